@@ -7,7 +7,7 @@ from vf import core, lib, spaces
 PID = "C07"
 LEVEL = "exploration"
 EPS = sys.float_info.epsilon
-RULE = ("every game of S2, P2, P3, T3, T4 under K0 and of S2, T3 under K1-K4, K6-K8 [thorough: + T5, T6|V2.., D7, D8] x every weak "
+RULE = ("every game of S2, P2, P3, T3, T4 under K0 and of S2, T3 under K1-K4, K6-K8 [thorough: + T5, T6|V2, D7, D8, 8x8 players] x every weak "
         "order incl. all multi-way ties x 5 classes; oracle: |sum_i dmu_i/var_i| <= 1e-9*max(sum_i |dmu_i/var_i|, n/(sqrt2 beta)) + "
         "rounding bound + (Thurstone-Mosteller) 2*kappa/c_iq^2 per tied pair that is actually paired; equal-variance corollary: "
         "plain sum of mu changes is zero on the sub-space where all teams share a variance; non-trivial = game in which some "
@@ -67,13 +67,13 @@ def plan(ctx):
     for K in ("K1", "K2", "K3", "K4", "K6", "K7", "K8"):
         out += [("S2", K), ("T3", K)]
     if ctx.thorough:
-        out += [("T5", "K0"), ("T6", "K0"), ("D7", "K0"), ("D8", "K0"), ("D8x8", "K0")]
+        out += [("T5", "K0"), ("T6|V2", "K0"), ("D7", "K0"), ("D8", "K0"), ("D8x8", "K0")]
         for K in ("K1", "K2", "K3", "K4", "K6", "K7", "K8"):
             out += [("P2", K), ("P3", K), ("T4", K)]
     return out
 
 
-PARTS = {"T5|V2": 4, "D7b1": 4, "D8b1": 8, "S2": 4, "P2": 6, "P3": 8, "T3": 8, "T4": 24, "T5": 64, "T6": 256, "D7": 24, "D8": 64, "D8x8": 64}
+PARTS = {"T6|V2": 48, "T5|V2": 4, "D7b1": 4, "D8b1": 8, "S2": 4, "P2": 6, "P3": 8, "T3": 8, "T4": 24, "T5": 64, "T6": 256, "D7": 24, "D8": 64, "D8x8": 64}
 
 
 def units(ctx):
